@@ -21,7 +21,7 @@ def cases(seed, tier):
     for k in range(n):
         r = random.Random(sch.np_seed(f"c07.{k}"))
         c = wp.std_case(r, sch.np_seed(f"s{k}"), kinds=("gauss", "bimodal", "expedge", "hole", "halfgauss", "vonmises", "corr"),
-                        scenarios=("plain", "plain", "crash_resume", "rerun", "like_raise", "pool_death", "load_only", "extra_samples"), boundaries=True)
+                        scenarios=("plain", "plain", "crash_resume", "rerun", "like_raise", "pool_death", "load_only", "extra_samples", "rewind"), boundaries=True)
         if r.random() < 0.12:
             c["rng_extreme"] = dict(rate=0.02, seed=r.randrange(100000))  # own arm: legal extreme uniform draws (0.0 / 1-2^-53)
         if c["target"]["kind"] == "hole":
